@@ -204,3 +204,34 @@ def pair_codec(facts):
     else:
         out.append(ob("cpc.pair", "cpc:pair-codec", "cpc/include", "discharged", "%d pair decodings all use & 63 / >> 6" % n, ""))
     return out
+
+
+def window_invariants(facts):
+    """first_interesting_column <= window_offset: the `col < first_interesting_column` shortcut in row_col_update discards
+    coupons, so every recomputation of first_interesting_column must be clamped to the (new) window offset"""
+    fns = functions_by(facts, ["cpc"])
+    out = []
+    for pat, fn in sorted(fns.items()):
+        if fn.get("rect") != "datasketches::cpc_sketch_alloc" or fn["kind"] != "method":
+            continue
+        st = stmts_of(fn["body"])
+        for i, s in enumerate(st):
+            e = strip(s.get("e")) if s.get("k") == "Expr" else None
+            if not (e and e.get("k") == "Assign" and e.get("op") == "=" and is_this_field(e["l"], ("first_interesting_column",))):
+                continue
+            key = "cpc_sketch_alloc::%s:first-interesting-column-clamped" % fn["name"]
+            off = [txt(x["e"]["r"]) for x in st if x.get("k") == "Expr" and strip(x["e"]).get("k") == "Assign" and is_this_field(strip(x["e"])["l"], ("window_offset",))]
+            nxt = st[i + 1] if i + 1 < len(st) else {}
+            ok = False
+            if nxt.get("k") == "If" and not nxt.get("e"):
+                c = strip(nxt["c"])
+                body = stmts_of(nxt["t"])
+                if c.get("k") == "Bin" and c.get("op") == ">" and is_this_field(c["l"], ("first_interesting_column",)) and len(body) == 1:
+                    b = strip(body[0].get("e") or {})
+                    if b.get("k") == "Assign" and is_this_field(b["l"], ("first_interesting_column",)) and txt(b["r"]) == txt(c["r"]) and (not off or txt(c["r"]) in off):
+                        ok = True
+            if ok:
+                out.append(ob("cpc.window", key, e["loc"], "discharged", "recomputed value is clamped: if (first_interesting_column > %s) first_interesting_column = %s" % (txt(strip(nxt["c"])["r"]), txt(strip(nxt["c"])["r"])), fn["qname"]))
+            else:
+                out.append(ob("cpc.window", key, e["loc"], "violated", "first_interesting_column is recomputed as `%s` without the clamp to the new window offset: when no surprising value lies in the early zone it lands beyond the window and the `col < first_interesting_column` shortcut then silently drops coupons whose column is inside the window" % txt(e["r"]), fn["qname"]))
+    return out
